@@ -121,8 +121,8 @@ class Chord:
     display_mix: bool = False     # explored class: accidental on one note, a signifier X / i / j / Z on another
 
     def union_sigs(self, rests=False):
-        """The notes of a chord share their signifiers; the rests written among them share theirs, and neither kind takes those
-        of the other (a rest cannot carry a stem or a beam, a note cannot carry the vertical position of a rest)."""
+        """The notes of a chord share their signifiers; a rest written among them keeps its own and takes none of theirs (a rest
+        cannot carry a stem or a beam, a note cannot carry the vertical position of a rest, two rests have two positions)."""
         u = set()
         for n in self.notes:
             if bool(n.rest) == rests:
@@ -130,7 +130,8 @@ class Chord:
         return tuple(sorted(u))
 
     def union_for(self, member):
-        return self.union_sigs(rests=bool(member.rest))
+        # a rest keeps exactly its own signifiers (its vertical position is its own); the notes share theirs
+        return tuple(sorted(member.all_sigs())) if member.rest else self.union_sigs(rests=False)
 
     def canonical_ekern(self):
         return ' '.join(n.canonical_ekern(self.union_for(n)) for n in self.notes)
